@@ -17,6 +17,10 @@ type fqdnCase struct {
 	Dom   string              `json:"dom"`
 	Table map[string][]string `json:"table"`
 	Host  string              `json:"host"`
+	// EnvDom, when present, makes the configuration come from the ENVIRONMENT (newBootstrapConfig): POD_NAMESPACE = NS and
+	// KITEX_XDS_DOMAIN unset ("unset"), present but empty ("empty") or set to Dom ("set"); Dom is then the domain the
+	// bootstrap rules give (the orchestrator computes it: unset and empty both mean cluster.local)
+	EnvDom string `json:"env_dom"`
 }
 
 type fqdnObs struct {
@@ -35,14 +39,30 @@ type quietManager struct {
 var quietManagers = map[string]*quietManager{}
 
 // quiet returns a manager (no warm-up, stream silent) for the namespace/domain.
-func quiet(ns, dom string) (*quietManager, error) {
-	key := ns + "\x00" + dom
+func quiet(ns, dom, envDom string) (*quietManager, error) {
+	key := ns + "\x00" + dom + "\x00" + envDom
 	if q, ok := quietManagers[key]; ok {
 		return q, nil
 	}
-	cfg := manager.VerifBootstrap(ns, dom, &v3core.Node{Id: "verif"}, &manager.XDSServerConfig{
-		SvrAddr: "fake", SvrName: "fake", NDSNotRequired: true, LDSNotRequired: true,
-	})
+	svr := &manager.XDSServerConfig{SvrAddr: "fake", SvrName: "fake", NDSNotRequired: true, LDSNotRequired: true}
+	cfg := manager.VerifBootstrap(ns, dom, &v3core.Node{Id: "verif"}, svr)
+	if envDom != "" {
+		pod, ip := "pod", "10.0.0.1"
+		env := map[string]*string{"POD_NAMESPACE": &ns, "POD_NAME": &pod, "INSTANCE_IP": &ip}
+		switch envDom {
+		case "empty":
+			e := ""
+			env["KITEX_XDS_DOMAIN"] = &e
+		case "set":
+			env["KITEX_XDS_DOMAIN"] = &dom
+		}
+		setEnv(env)
+		c2, err := manager.VerifBootstrapFromEnv(svr)
+		if err != nil || c2 == nil {
+			return nil, fmt.Errorf("bootstrap from the environment failed: %v", err)
+		}
+		cfg = c2
+	}
 	m, err := manager.VerifNewManager(cfg, newFakeADS(), true)
 	if err != nil {
 		return nil, err
@@ -59,7 +79,7 @@ func runFqdn(raw json.RawMessage) (interface{}, error) {
 	if err := json.Unmarshal(raw, &c); err != nil {
 		return nil, err
 	}
-	q, err := quiet(c.NS, c.Dom)
+	q, err := quiet(c.NS, c.Dom, c.EnvDom)
 	if err != nil {
 		return nil, fmt.Errorf("manager: %v", err)
 	}
